@@ -18,6 +18,7 @@ type Config struct {
 	Imports    bool // several packages with imports
 	Services   bool
 	Topics     bool
+	Entities   bool // entity declarations (keys, data, statuses, events; J5sEntity.v)
 	PFiles     bool // hand-written .proto files in local packages
 	// percentage of inline types that are named like one of their enclosing messages
 	AncestorNames int
@@ -27,7 +28,7 @@ type Config struct {
 
 func DefaultConfig() Config {
 	return Config{MaxDepth: 4, MaxFields: 7, Oneofs: true, Containers: true, Refs: true, Imports: true,
-		Services: true, Topics: true, PFiles: true, AncestorNames: 2, MaxPackages: 3, MaxFiles: 3}
+		Services: true, Topics: true, Entities: true, PFiles: true, AncestorNames: 2, MaxPackages: 3, MaxFiles: 3}
 }
 
 type typeEntry struct {
@@ -134,7 +135,12 @@ func enumValueNames(name string, e *Enum) []string {
 	if pfx == "" {
 		pfx = strcase.ToScreamingSnake(name) + "_"
 	}
-	out := []string{pfx + "UNSPECIFIED"}
+	// a FIRST option ending in UNSPECIFIED is the zero value itself; otherwise the implicit
+	// <PREFIX>UNSPECIFIED precedes the options
+	var out []string
+	if len(e.Opts) == 0 || !strings.HasSuffix(e.Opts[0], "UNSPECIFIED") {
+		out = append(out, pfx+"UNSPECIFIED")
+	}
 	for _, o := range e.Opts {
 		if strings.HasPrefix(o, pfx) {
 			out = append(out, o)
@@ -154,20 +160,30 @@ func (g *Gen) optionName(first bool) string {
 	if g.R.Chance(20) {
 		o += fmt.Sprint(g.R.Intn(5))
 	}
-	if !first && g.R.Chance(12) {
+	// not first: ends like the zero value, is not the zero value; first (rarely): a zero value
+	// with a name of its own (STATUS_OLD_UNSPECIFIED = 0)
+	if (!first && g.R.Chance(12)) || (first && g.R.Chance(3)) {
 		o += "_UNSPECIFIED"
 	}
 	return o
 }
 
-func (g *Gen) enum(name string) *Enum {
+// enum draws an enum; allowEmpty: `enum X {}` without options may come out (declared enums only:
+// an inline `field f enum { }` without anything in it is read as an enum field without schema
+// and rejected, "unhandled enum schema type <nil>" - outside the documented language).
+func (g *Gen) enum(name string, allowEmpty bool) *Enum {
 	e := &Enum{Name: name}
 	if g.R.Chance(20) {
 		e.Prefix = strings.ToUpper(vh.Pick(g.R, words)) + "_"
 	}
 	n := g.R.Range(1, 5)
+	if allowEmpty && g.R.Chance(6) {
+		g.Stats["enum_without_options"]++
+		return e // `enum X {}`: only the implicit zero value
+	}
 	seen := map[string]bool{}
 	if g.R.Chance(15) {
+		g.Stats["enum_explicit_unspecified"]++
 		e.Opts = append(e.Opts, "UNSPECIFIED")
 		seen["UNSPECIFIED"] = true
 	}
@@ -432,7 +448,7 @@ func (g *Gen) item(sc *scope, pname string, depth int, inOneof bool) (*Field, bo
 			over = g.rawTypeName()
 			name = over
 		}
-		e := g.enum(over)
+		e := g.enum(over, false)
 		if !claimEnum(sc.symbols, name, e) {
 			return nil, false
 		}
@@ -539,7 +555,7 @@ func (g *Gen) nestedDecl(symbols map[string]bool, path []string, depth int, allo
 			kind = "oneof"
 		}
 		if kind == "enum" {
-			e := g.enum(name)
+			e := g.enum(name, true)
 			if !claimEnum(symbols, name, e) {
 				continue
 			}
@@ -796,6 +812,8 @@ func (g *Gen) Bundle() (*Bundle, string) {
 					decls = append(decls, &Element{Kind: "service"})
 				case g.Cfg.Topics && r < 24:
 					decls = append(decls, &Element{Kind: "topic"})
+				case g.Cfg.Entities && r < 31:
+					decls = append(decls, &Element{Kind: "entity"})
 				default:
 					decls = append(decls, &Element{Kind: "schema"})
 				}
@@ -811,6 +829,12 @@ func (g *Gen) Bundle() (*Bundle, string) {
 						continue
 					}
 					g.Stats["topic_"+e.Topic.Kind]++
+				case "entity":
+					e.Entity = g.entity()
+					if e.Entity == nil {
+						continue
+					}
+					g.Stats["entity"]++
 				default:
 					n := g.nestedDecl(st.symbols, nil, 0, true)
 					if n == nil {
